@@ -45,6 +45,8 @@ class Loop:
 class Contract:
     key: str
     requires: List[str] = field(default_factory=list)
+    definitions: List[str] = field(default_factory=list)  # definitional axioms of opaque spec predicates (conservative extensions):
+    # assumed while proving THIS function only, so that callers see the predicate as an opaque name
     ensures: List[str] = field(default_factory=list)
     raises: List[Raises] = field(default_factory=list)  # exceptional outcomes (for callers) / allowed escapes (for proof)
     xensures: Dict[str, List[str]] = field(default_factory=dict)  # proved on every path raising that class
